@@ -50,7 +50,7 @@ Definition handler_of (n : Z) : option handler :=
   | 14 => Some HViInsertKeyNav | 15 => Some HViInsertKeyIns | 16 => Some HViGoLeft
   | 17 => Some HViReplaceSingle | 18 => Some HViReplaceInsert | 19 => Some HViDigraph | 20 => Some HViQuickNormal
   | 21 => Some HViInsertMulti | 22 => Some HViBackspaceMulti | 23 => Some HViDeleteMulti
-  | 24 => Some HViLeftMulti | 25 => Some HViRightMulti | 26 => Some HViOperatorInNav | 27 => Some HIgnore
+  | 24 => Some HViLeftMulti | 25 => Some HViRightMulti | 26 => Some (HViOperatorInNav false) | 38 => Some (HViOperatorInNav true) | 27 => Some HIgnore
   | 28 => Some HViUpSel | 29 => Some HViDownSel | 30 => Some HViUpNav | 31 => Some HViGoUpK
   | 32 => Some HViDownNav | 33 => Some HViGoDownJ | 34 => Some HPreviousHistory | 35 => Some HNextHistory
   | 36 => Some HEmacsAutoUp | 37 => Some HEmacsAutoDown
